@@ -382,7 +382,14 @@ pub fn compare_model_p(model: &Value, p: &Value) -> Vec<Diff> {
 
 /// Save with the chosen writer, validate + decode with P, compare.  Shared by C02 spaces and by C06/C11.
 pub fn check_package(b: &Spreadsheet, light: bool, tags: &[&str], case: &Value, sink: &mut Sink, prefix: &str) -> Option<Vec<u8>> {
-    let model = book_p(b, Opts { styles: false, annotations: true, dims: false });
+    check_package_against(b, b, light, tags, case, sink, prefix, &[])
+}
+/// `b` is saved; the decoded package is compared with the model dump of `model_of` (the same object, or an eagerly
+/// loaded twin that received the same edits when `b` still has unloaded sheets).
+/// `inherited`: validity symptoms the SOURCE file already shows (e.g. Excel's own legacy VML with an unclosed <br>, copied
+/// verbatim with an unloaded sheet): they are not the writer's doing and are not reported.
+pub fn check_package_against(b: &Spreadsheet, model_of: &Spreadsheet, light: bool, tags: &[&str], case: &Value, sink: &mut Sink, prefix: &str, inherited: &[String]) -> Option<Vec<u8>> {
+    let model = book_p(model_of, Opts { styles: false, annotations: true, dims: false });
     // content-derived tag: some text of the model contains a carriage return
     let mut tags_v: Vec<&str> = tags.to_vec();
     if model.to_string().contains("\\r") {
@@ -400,6 +407,10 @@ pub fn check_package(b: &Spreadsheet, light: bool, tags: &[&str], case: &Value, 
     let mut seen = std::collections::BTreeSet::new();
     for (class, part, msg) in problems {
         let sym = format!("{}:{}", class, part_family(&part));
+        if inherited.contains(&sym) {
+            sink.count("validity_problems_inherited_from_source_file", 1);
+            continue;
+        }
         if seen.insert(sym.clone()) {
             sink.violations.push(Violation::new(&format!("{}package-valid", prefix), &sym, tags, case.clone(), format!("{}: {}", part, msg)));
         }
@@ -714,11 +725,85 @@ impl Space for Corpus {
     }
 }
 
+/// Corpus files opened LAZILY; one sheet (first or last) is materialised and gets a text cell and an external link while
+/// the others stay unloaded; the saved package must be valid and decode to what an eagerly loaded twin with the same
+/// edit shows.
+struct LazyCorpus {
+    files: Vec<String>,
+    big: bool,
+}
+impl Space for LazyCorpus {
+    fn len(&self) -> u64 {
+        self.files.len() as u64 * 4
+    }
+    fn describe(&self, i: u64) -> Value {
+        json!({"kind":"lazy-corpus","file": self.files[(i/4) as usize].rsplit('/').next(), "edited_sheet": if (i / 2) % 2 == 0 { "first" } else { "last" }, "light": i % 2 == 1})
+    }
+    fn tags(&self, i: u64) -> Vec<String> {
+        vec![format!("corpus:{}", self.files[(i / 4) as usize].rsplit('/').next().unwrap_or("")), "lazy-load".into(), format!("edited:{}", if (i / 2) % 2 == 0 { "first" } else { "last" })]
+    }
+    fn run(&self, i: u64, sink: &mut Sink) {
+        let path = &self.files[(i / 4) as usize];
+        let light = i % 2 == 1;
+        let last = (i / 2) % 2 == 1;
+        let tl = self.tags(i);
+        let tags: Vec<&str> = tl.iter().map(|x| x.as_str()).collect();
+        let case = self.describe(i);
+        let data = match std::fs::read(path) {
+            Ok(d) => d,
+            Err(_) => return,
+        };
+        if !self.big && data.len() > 600_000 {
+            sink.count("corpus_skipped_big_in_quick", 1);
+            return;
+        }
+        let (mut lazy, mut eager) = match (load_bytes(&data, false), load_bytes(&data, true)) {
+            (Ok(a), Ok(b)) => (a, b),
+            _ => {
+                sink.count("corpus_unreadable", 1);
+                return;
+            }
+        };
+        let n = eager.get_sheet_count();
+        if n == 0 {
+            return;
+        }
+        let idx = if last { n - 1 } else { 0 };
+        let edit = |b: &mut Spreadsheet| -> Result<(), String> {
+            let r = std::panic::catch_unwind(std::panic::AssertUnwindSafe(|| {
+                let ws = b.get_sheet_mut(&idx).unwrap();
+                let (hc, hr) = ws.get_highest_column_and_row();
+                if hc >= 16000 || hr >= 1_000_000 {
+                    return;
+                }
+                let c = ws.get_cell_mut((hc + 2, hr + 2));
+                c.set_value_string("added after a lazy load");
+                let mut h = Hyperlink::default();
+                h.set_url("https://example.com/lazy?x=1&y=2");
+                c.set_hyperlink(h);
+            }));
+            r.map_err(|e| panic_msg(&e))
+        };
+        if let Err(e) = edit(&mut lazy) {
+            sink.violations.push(Violation::new("save-succeeds", &format!("edit-failed:{}", panic_class(&e)), &tags, case.clone(), format!("lazily loaded: {}", e)));
+            return;
+        }
+        if edit(&mut eager).is_err() {
+            return; // the eager twin cannot take the edit either: not a lazy-loading matter
+        }
+        let inherited: Vec<String> = with_py(|py| py.validate_decode(&data, false)).0.into_iter().map(|(class, part, _)| format!("{}:{}", class, part_family(&part))).collect();
+        if let Some(bytes) = check_package_against(&lazy, &eager, light, &tags, &case, sink, "", &inherited) {
+            sink.hashes.push(fnv(&strip_volatile(&bytes)));
+        }
+    }
+}
+
 pub fn space(tier: Tier, id: &str) -> Option<Box<dyn Space>> {
     match id {
         "lattice" => Some(Box::new(Lattice { subsets: subsets(tier) })),
         "channels" => Some(Box::new(Channels { cases: channel_cases() })),
         "corpus" => Some(Box::new(Corpus { files: corpus_files(), big: tier == Tier::Thorough })),
+        "lazy-corpus" => Some(Box::new(LazyCorpus { files: corpus_files(), big: tier == Tier::Thorough })),
         _ => None,
     }
 }
@@ -728,7 +813,7 @@ fn replay(tier: Tier, case: &Value) -> Vec<Violation> {
 }
 
 fn run(ctx: &Ctx) -> i32 {
-    let ids = ["lattice", "channels", "corpus"];
+    let ids = ["lattice", "channels", "corpus", "lazy-corpus"];
     let spaces = ids.iter().map(|id| (*id, space(ctx.tier, id).unwrap())).collect();
     let nsub = subsets(ctx.tier).len();
     run_e1(
@@ -737,7 +822,7 @@ fn run(ctx: &Ctx) -> i32 {
             spaces,
             cfg: PoolCfg { chunk: 8, case_timeout: std::time::Duration::from_secs(120), ..Default::default() },
             level: "exploration",
-            rule: "every workbook of (i) the feature-subset lattice over 11 annotation/structure features x {standard, light writer} x {macro payload, none}, (ii) every escape channel x applicable special string x both writers, (iii) every corpus file loaded and re-saved by both writers, is written to memory and handed to the independent Python validator+decoder; oracle = no validity problem and decoded cells/formulas/hyperlinks/merges/defined names/sheet list equal the pre-save model dump. distinct_nontrivial = distinct (part list, part sizes[, channel, text]) signatures of the produced packages".into(),
+            rule: "every workbook of (i) the feature-subset lattice over 11 annotation/structure features x {standard, light writer} x {macro payload, none}, (ii) every escape channel x applicable special string x both writers, (iii) every corpus file loaded and re-saved by both writers, (iv) every corpus file opened lazily, its first or last sheet materialised and given a text cell with an external link while the other sheets stay unloaded (model = an eagerly loaded twin with the same edit), is written to memory and handed to the independent Python validator+decoder; oracle = no validity problem and decoded cells/formulas/hyperlinks/merges/defined names/sheet list equal the pre-save model dump. distinct_nontrivial = distinct (part list, part sizes[, channel, text]) signatures of the produced packages".into(),
             alphabets: json!({"features": FEATURES, "subsets": nsub, "writers": 2, "macro": 2, "channels": CHANNELS, "specials": SPECIALS.iter().map(|s| s.0).collect::<Vec<_>>(), "channel_cases": channel_cases().len(), "corpus_files": corpus_files().len()}),
             bounds: json!({"lattice": if ctx.tier == Tier::Quick {"subsets of size <=2 and complements of size <=1 (cut of the 2^11 lattice, stated as a bound)"} else {"all 2^11 subsets"}, "corpus": if ctx.tier == Tier::Quick {"files <= 600 kB"} else {"all files"}}),
             exhaustive: true,
